@@ -79,6 +79,18 @@ def gen_tree(rng):
             um = os.path.join(up, "helper_two_up.py") if up else "helper_two_up.py"
             files[um] = body(um)
             files[cf] = "from ...helper_two_up import *\n" + files[cf]
+    # directed (in every tree): a module reachable only from a suffix-named test file (*_test.py); a plugin module named only
+    # by a literal pytest_plugins that a later non-literal assignment replaces (nothing declared: not pulled in); the
+    # reverse order (the literal wins: pulled in); a plain assignment replaced by an annotated one
+    files["zz_suffix/only_test.py"] = body("zz_suffix/only_test.py", "from .suffix_helper import *")
+    files["zz_suffix/suffix_helper.py"] = body("zz_suffix/suffix_helper.py")
+    files["zz_plug/conftest.py"] = body("zz_plug/conftest.py", 'pytest_plugins = ["zz_plug.stale_mod"]\npytest_plugins = sorted(_PLUGINS)')
+    files["zz_plug/stale_mod.py"] = body("zz_plug/stale_mod.py")
+    files["zz_plug2/conftest.py"] = body("zz_plug2/conftest.py", 'pytest_plugins = sorted(_PLUGINS)\npytest_plugins = ["zz_plug2.live_mod"]')
+    files["zz_plug2/live_mod.py"] = body("zz_plug2/live_mod.py")
+    files["zz_plug3/conftest.py"] = body("zz_plug3/conftest.py", 'pytest_plugins = ["zz_plug3.old_mod"]\npytest_plugins: list = ["zz_plug3.new_mod"]')
+    files["zz_plug3/old_mod.py"] = body("zz_plug3/old_mod.py")
+    files["zz_plug3/new_mod.py"] = body("zz_plug3/new_mod.py")
     # excludes (forms whose meaning is unambiguous for root-relative paths)
     excludes = []
     tops = sorted({r.split("/")[0] for r in files if "/" in r})
@@ -162,6 +174,17 @@ def expected_indexed(files, excludes, broken):
                 if cand in files and cand not in exp and cand not in broken:
                     exp.add(cand)
                     changed = True
+            # pytest_plugins: the last module-level assignment wins; only a literal list declares modules (root-relative
+            # dotted names are the only ones the generator writes)
+            last = None
+            for m_ in re.finditer(r"^pytest_plugins(?::[^=\n]*)? = (.*)$", t, re.M):
+                last = m_.group(1)
+            if last and last.startswith("["):
+                for dotted in re.findall(r'"([\w.]+)"', last):
+                    cand = dotted.replace(".", "/") + ".py"
+                    if cand in files and cand not in exp and cand not in broken:
+                        exp.add(cand)
+                        changed = True
     return exp
 
 
